@@ -34,6 +34,12 @@ CLAIMED = {
  "C04": ("provenance and dominance rules for every store to Trip.Vehicle / Vehicle.Trip, pairing rule for the association tables, path enumeration of the both-present region, E4 return-path tables of the entity parsers",
          "Decides the link mechanism structurally for every feed and entity order: links are stored only between accumulator entries and only after all merging is done, every expressed association is recorded on every path and resolved, and copies are taken after linking. Content equality behind the links follows from these plus C07; it is not separately computed.",
          "Feeds associate each trip with at most one vehicle (property's quantifier); accumulator entries of distinct keys are distinct objects."),
+ "C01": ("E3 backward provenance (binding extraction) of every result field to CSV columns compared with the GTFS column table; E4 decision tables of the enum decoders against the GTFS digits; polynomial normal form of the time formula; syntax-tree reading of the file table; dominance rules for reader configuration and pre-allocation; E5 taint for package-level state",
+         "Structural necessary conditions of faithful transcription, decided for every archive: which column reaches which field through which decoder, what each decoder's table is, how times and dates are formed and in which zone, which file is parsed by which function in which order, and that presentation (column order, extra columns/files, BOM, quoting) is left to a CSV reader configured only with library defaults. The value round trip itself (numeric parsing, zip/csv decoding) is not decided.",
+         "Oracle tables transcribed from the GTFS reference (DESIGN Appendix A.1/A.2); strconv, encoding/csv, archive/zip, x/text BOM override and time.ParseInLocation behave as documented."),
+ "C02": ("E3 backward provenance of every realtime field to gtfs-realtime.proto fields compared with the wire table; use-site rule for time.Unix/time.Date zones; polynomial normal form of the start time; E4 decision tables of the direction decoder, timezoneOrUTC and the nil-preserving converters; merge/guard rules shared with C07/C04; E5 taint for package-level state",
+         "Structural necessary conditions of faithful transcription of the wire, decided for every message and timezone option: field-to-field bindings, allowed transformers, zone of every constructed instant, units, literal in-message flags, absent-stays-absent converters, one entry per descriptor. Numeric ranges and protobuf decoding are not decided.",
+         "Oracle transcribed from gtfs-realtime.proto (DESIGN Appendix A.3); the time package's zone arithmetic and the protobuf runtime are trusted."),
 }
 REASON_TODO = "check under construction in this session (static rule set designed in DESIGN.md section 3, not yet implemented); not claimed until it runs clean on the unchanged tree"
 NOT_APPLICABLE = {}
